@@ -171,7 +171,7 @@ func evalGwProperty(c *vh.Ctx, where string, s []gwRec, date int, got float64, g
 		}
 	}
 	c.Count(where + ":" + kind + dist)
-	c.Nontrivial(fmt.Sprintf("%s:%s%s:n%d", where, kind, dist, minI(len(s), 6)))
+	c.Nontrivial(fmt.Sprintf("%s:%s%s:n%d", where, kind, dist, minICfg(len(s), 6)))
 	switch kind {
 	case "exact", "before", "after":
 		if !bitsEq(got, want) {
@@ -190,7 +190,7 @@ func evalGwProperty(c *vh.Ctx, where string, s []gwRec, date int, got float64, g
 	}
 }
 
-func minI(a, b int) int {
+func minICfg(a, b int) int {
 	if a < b {
 		return a
 	}
@@ -391,7 +391,7 @@ func checkC20(c *vh.Ctx) {
 		}
 		type dayObs struct {
 			zeit, grhi, grlo, phase int
-			gw, ampl, grw, tag     float64
+			gw, ampl, grw, tag      float64
 		}
 		var obs []dayObs
 		res := proj.Run(root, p, &hermes.VerifProbes{
@@ -466,7 +466,7 @@ func checkC20(c *vh.Ctx) {
 			sinImpl = append(sinImpl, vh.FVals(o.gw, o.ampl, o.grw))
 			sinDescr = append(sinDescr, pay(o))
 		}
-		c.Nontrivial(fmt.Sprintf("run:minmax:%s:phase%d", map[bool]string{true: "gh<=gl", false: "gh>gl"}[gh <= gl], minI(3, (phase+400)/200)))
+		c.Nontrivial(fmt.Sprintf("run:minmax:%s:phase%d", map[bool]string{true: "gh<=gl", false: "gh>gl"}[gh <= gl], minICfg(3, (phase+400)/200)))
 		if k < 2 {
 			c.Sample(map[string]interface{}{"stage": "run-minmax", "project": p.Name, "GH": gh, "GL": gl, "phase": phase, "days": len(obs), "mean_level_observed": sum / float64(cnt)})
 		}
